@@ -305,31 +305,45 @@ def run_unit(u):
         old = sys.getswitchinterval()
         sys.setswitchinterval(1e-6)
         try:
-            for _ in range(u['n']):
+            for rnd in range(u['n']):
                 n = rng.choice([2, 4, 8])
                 jobs, _f = instantiate([make_job(rng, sv, doc) for _ in range(n)])
-                results = [None] * n
+                reps = 1
+                if rnd % 6 == 5:
+                    # a storm: every thread repeats one short query on its own parentless tree many times (windows of a few
+                    # byte codes are only hit by repetition)
+                    sel_ = rng.choice([':only-child', 'div:first-child > p', ':not(:nth-child(2)) > p', 'div:nth-last-of-type(1) > :first-child'])
+                    jobs = [('detached', sel_ if rng.random() < .7 else ':only-child', i % 3) for i in range(n)]
+                    reps = 150
+                    bump('stress_storms')
+                allres = [[None] * n for _ in range(reps)]
                 barrier = threading.Barrier(n)
 
                 def body(i):
                     barrier.wait()
-                    try:
-                        results[i] = ('ok', thunk(sv, doc, jobs[i])())
-                    except BaseException as ex:  # noqa: BLE001
-                        results[i] = ('raise', ex)
+                    f = thunk(sv, doc, jobs[i])
+                    for k_ in range(reps):
+                        try:
+                            allres[k_][i] = ('ok', f())
+                        except BaseException as ex:  # noqa: BLE001
+                            allres[k_][i] = ('raise', ex)
                 sv.purge()
                 ths = [threading.Thread(target=body, args=(i,)) for i in range(n)]
                 for t in ths:
                     t.start()
                 for t in ths:
-                    t.join(60)
+                    t.join(120)
                 res['evals'] += 1
                 bump('stress_rounds')
                 cached = cache_probe(sv, jobs)
                 refs, rerr = safe_reference(sv, doc, jobs)
-                bad = judge(jobs, refs, results, cached, rerr)
-                if bad:
-                    report(jobs, [], bad, 'free-running')
+                for results in allres:
+                    if any(r is None for r in results):
+                        continue
+                    bad = judge(jobs, refs, results, cached, rerr)
+                    if bad:
+                        report(jobs, [], bad, 'free-running')
+                        break
         finally:
             sys.setswitchinterval(old)
     res['sigs'] = list(sigs)
